@@ -115,16 +115,16 @@ def run(ctx):
         sim_n, sim_depth = 120, 25
     else:
         confs = [
-            dict(name="ties", reals=["a", "b", "c", "d"], cplx=[], V=[1, 2], depth=5, walk=150000),
-            dict(name="complex", reals=["a"], cplx=["z", "w"], V=[-1, 1, 2], depth=4, walk=150000),
-            dict(name="mixed", reals=["a", "b"], cplx=["z"], V=[-1, 0, 2], depth=4, walk=150000),
+            dict(name="ties", reals=["a", "b", "c", "d"], cplx=[], V=[1, 2], depth=4, walk=40000),
+            dict(name="complex", reals=["a"], cplx=["z", "w"], V=[-1, 1, 2], depth=3, walk=40000),
+            dict(name="mixed", reals=["a", "b"], cplx=["z"], V=[-1, 0, 2], depth=4, walk=30000),
         ]
         prop_confs = [
             dict(name="ties", reals=["a", "b", "c", "d"], cplx=[], V=[1, 2], depth=6),
             dict(name="complex", reals=["a"], cplx=["z", "w"], V=[-1, 1, 2], depth=5),
             dict(name="mixed", reals=["a", "b"], cplx=["z"], V=[-1, 0, 2], depth=5),
         ]
-        sim_n, sim_depth = 3000, 30
+        sim_n, sim_depth = 1500, 30
 
     # ---------------- 1. the properties on the model --------------------------
     # fast path: one TLC run with every invariant and action property; only when it
